@@ -140,6 +140,33 @@ Proof. destruct p; cbn [w_mask w_nonnull]; now rewrite count_mask, lenN_ok. Qed.
 Lemma w_nonnull_le p : w_nonnull p <= w_rows p.
 Proof. destruct p as [l|l]; cbn [w_nonnull w_rows]; rewrite !lenN_ok; pose proof (somes_le l); lia. Qed.
 
+(* the layout checks of the repaired reader (Impl/RSelf.v guard_def / guard_idx) hold on what the writer lays out *)
+Lemma le_groups n : n <= 8 * ((n + 7) / 8).
+Proof. pose proof (N.div_mod (n + 7) 8 ltac:(lia)). pose proof (N.mod_lt (n + 7) 8 ltac:(lia)). lia. Qed.
+
+Lemma guard_idx_uleb nval g x : nval <= 8 * g -> guard_idx nval (uleb_enc (2 * g + 1) ++ x) = true.
+Proof.
+  intro H. unfold guard_idx. rewrite uleb_roundtrip.
+  replace (N.odd (2 * g + 1)) with true by (symmetry; rewrite N.add_comm; apply N.odd_add_mul_2).
+  replace ((2 * g + 1) / 2) with g.
+  - cbn [andb]. apply N.leb_le. lia.
+  - symmetry. rewrite N.mul_comm, N.div_add_l by lia. change (1 / 2) with 0. apply N.add_0_r.
+Qed.
+
+Lemma guard_def_writer n rest : n < 2 ^ 31 -> guard_def 1 n (wr_defs_nonull_v1 n ++ rest) = true.
+Proof.
+  intro H. unfold guard_def, wr_defs_nonull_v1, wr_defs_nonull_v2. rewrite <- !app_assoc.
+  rewrite BytesProofs.le_dec_enc.
+  - rewrite uleb_roundtrip. cbn [app]. rewrite !N.eqb_refl. cbn [andb].
+    apply andb_true_intro. split; apply N.eqb_eq.
+    + rewrite !lenN_ok, !app_length. cbn [length]. lia.
+    + rewrite WLevelsProofs.skip_hand_is_block_len, WLevelsProofs.defs_nonull_v1_length.
+      rewrite !lenN_ok, !app_length, BytesProofs.le_enc_length. cbn [length]. lia.
+  - rewrite app_length. cbn [length].
+    pose proof (CodecProofs.uleb_len_u64 (2 * n) ltac:(change (2 ^ 64) with (2 ^ 33 * 2 ^ 31); lia)) as L.
+    change (256 ^ N.of_nat 4) with 4294967296. lia.
+Qed.
+
 (* definition levels of a v1 page as the reader gets them, with or without the skip shortcut *)
 Lemma rd_def_writer c p skip_nulls rest :
   wc_v2 c = false -> 0 < w_rows p -> w_rows p < 2 ^ 31 ->
@@ -154,7 +181,8 @@ Proof.
   - destruct (w_nonnull p =? w_rows p) eqn:E.
     + apply N.eqb_eq in E. rewrite E, N.sub_diag. exists None. split; [|left; split; reflexivity].
       destruct skip_nulls; cbn [andb].
-      * rewrite WLevelsProofs.skip_hand_is_block_len, WLevelsProofs.dropN_app_exact. reflexivity.
+      * rewrite guard_def_writer by exact NB.
+        rewrite WLevelsProofs.skip_hand_is_block_len, WLevelsProofs.dropN_app_exact. reflexivity.
       * unfold rd_def. cbn [N.eqb]. change (N.size 1) with 1.
         rewrite WLevelsProofs.defs_nonull_v1_dec by first [assumption | (eapply N.lt_trans; [exact NB|reflexivity])].
         rewrite count_def_repeat, N2Nat.id, N.sub_diag. reflexivity.
@@ -168,7 +196,7 @@ Proof.
       * destruct p; apply mask_bits.
       * pose proof (w_mask_length p). lia.
       * rewrite w_mask_length. eapply N.lt_trans; [exact NB|reflexivity].
-  - rewrite andb_false_r. unfold rd_def. cbn [N.eqb app]. rewrite (REQ eq_refl), N.sub_diag.
+  - rewrite ?andb_false_r. unfold rd_def. cbn [N.eqb app]. rewrite (REQ eq_refl), N.sub_diag.
     exists None. split; [reflexivity|left; split; reflexivity].
 Qed.
 
@@ -284,6 +312,7 @@ Proof.
             injection M as M; f_equal; now apply IH || now apply IH. }
         lia.
       * cbn [cd_of cd_maxdef rbind]. rewrite OPT, MK. now rewrite (cells_of_mask (A:=unit) cells []). }
+    rewrite guard_idx_uleb by (rewrite ?lenN_ok; apply le_groups). rewrite andb_true_r.
     destruct selfmade.
     + rewrite uleb_roundtrip, BK, lenN_ok.
       change [0; 0; 0; 0; 0; 0; 0; 0] with (zeros 8).
